@@ -59,6 +59,13 @@ class HBaseErr(BaseException):
         self.tag = tag
 
 
+class HFalsyBaseErr(HBaseErr):
+    """a BaseException instance whose truth value is False"""
+
+    def __len__(self):
+        return 0
+
+
 class Val(object):
     """an opaque value with identity"""
 
